@@ -221,6 +221,22 @@ func (e *Env) ident(name string) *Val {
 			return p
 		}
 	}
+	if e.locals && name == "visited" && e.at != nil {
+		// visited set of the map iteration governing this loop: visited[k] for keys already yielded
+		var best *ssa.Range
+		for rng := range fv.mapIters {
+			if rng.Block() == e.at || rng.Block().Dominates(e.at) {
+				if best == nil || rng.Block().Index > best.Block().Index {
+					best = rng
+				}
+			}
+		}
+		if best != nil {
+			it := fv.mapIters[best]
+			mt := best.X.Type().Underlying().(*types.Map)
+			return &Val{T: fv.heapAt(e.st, it.visited, "(Array "+it.ksort+" Bool)"), Typ: types.NewArray(types.Typ[types.Bool], 1), mapKey: mt.Key()}
+		}
+	}
 	if e.locals && fv.fn != nil {
 		if a := fv.findLocal(name, e.at); a != nil {
 			p := fv.placeOfAlloc(a)
@@ -577,7 +593,8 @@ func (e *Env) call(n *ast.CallExpr) *Val {
 			return intVal("(slen " + v.T + ")")
 		case *types.Map:
 			_, _, cn, _, _ := fv.mapParts(u)
-			return intVal("(select " + fv.heapAt(e.st, cn, "(Array Int Int)") + " " + v.T + ")")
+			fv.mapCardFactsAt(e.st, v.T, u)
+			return intVal("(ite (= " + v.T + " 0) 0 (select " + fv.heapAt(e.st, cn, "(Array Int Int)") + " " + v.T + "))")
 		case *types.Array:
 			return intVal(fmt.Sprintf("%d", u.Len()))
 		}
@@ -621,6 +638,9 @@ func (e *Env) call(n *ast.CallExpr) *Val {
 			}
 		}
 		return e.errf("typeid: unknown type")
+	case "setidx": // setidx(a, i, v): array a updated at i
+		a, i, v := e.tr(n.Args[0]), e.tr(n.Args[1]), e.tr(n.Args[2])
+		return &Val{T: "(store " + a.T + " " + i.T + " " + v.T + ")", Typ: a.Typ}
 	case "ptrof": // ptrof(x, *T): reinterpret an int / interface payload as a pointer of type *T
 		v := e.tr(n.Args[0])
 		t := fv.g.resolveType(exprText(n.Args[1]))
